@@ -314,6 +314,8 @@ class PoolHarness:
             raise HarnessRefusal("no _replace task waits in the executor")
         self.tcount += 1
         self.tname = "T%d" % self.tcount
+        old = tasks[0].args[0] if tasks[0].args else None
+        self.told = self.conns.index(old) + 1 if old in self.conns else 0
         self.sched.spawn(self.tname, self.cluster.executor.run, tasks[0])
         lab = self._run(self.tname, lambda l: l == "rel:pool@_replace")
         self.tphase = None if lab == "end" else "open"
@@ -333,7 +335,8 @@ class PoolHarness:
 
     def act_ReplacePublish(self, a):
         self._tphase("publish")
-        lab = self._run(self.tname, lambda l: l.startswith("acq:conn") and l.endswith("@_replace"))
+        # up to the critical section that retires the old connection (its lock is taken first)
+        lab = self._run(self.tname, lambda l: l == "acq:conn%d@_replace" % self.told)
         self.tphase = None if lab == "end" else "retire"
 
     def act_ReplaceRetire(self, a):
@@ -548,7 +551,10 @@ def owner(signature, act, post, d):
         if c is not None and any(c["spec"][i] != c["code"][i] and not post["defunct"][i] for i in c["spec"]):
             return "C13"
         if act["name"] in ("BorrowStart", "BorrowTake") and "on" in d:
-            return "C13"
+            st = d.get("st")
+            if st is not None and st["spec"].get(act["r"]) == "nohost":
+                return "C12"          # the code handed out a connection the spec refuses (capacity, shutdown)
+            return "C13"              # the borrow went to another connection than the spec's (or nowhere)
     return "C12"
 
 
